@@ -176,6 +176,9 @@ func c18Eligible(c c18Config) map[string]string {
 					}
 				}
 				siteLocal := b[0] == 0xfe && b[1]&0xc0 == 0xc0
+				if ip.IsLoopback() || ip.IsUnspecified() {
+					v4compat = false // ::1 and :: share the zero prefix but are not IPv4-compatible addresses (RFC 4291 §2.5.5.1)
+				}
 				if !v6req || v4compat || siteLocal {
 					continue
 				}
@@ -580,6 +583,9 @@ func TestVerif_C18_Gather(t *testing.T) {
 					if x != 0 {
 						v4compat = false
 					}
+				}
+				if ip.IsLoopback() {
+					v4compat = false // (::1 is the loopback address, not an IPv4-compatible one; :: stays flagged: D21)
 				}
 				if ip.IsLinkLocalUnicast() || (b[0] == 0xfe && b[1]&0xc0 == 0xc0) || v4compat {
 					sig := "C18/sound/special-purpose-address"
